@@ -106,13 +106,15 @@ type c02Case struct {
 	shape    int    // 0 single; 1 two confirmations bad first; 2 two confirmations bad second; 3 two assertions bad first; 4 two assertions bad second; 5 no subject confirmation at all
 	layout   int    // 0 response signed, 1 assertion(s) signed
 	form     int
-	entry    int  // 0 xml, 1 post, 2 artifact (AR.II satisfying), 3 artifact (AR.II violating)
-	arSigned bool // artifact entries: the ArtifactResponse envelope carries its own signature as well
+	entry    int   // 0 xml, 1 post, 2 artifact (AR.II satisfying), 3 artifact (AR.II violating)
+	allowIDP bool  // AllowIDPInitiated on the SP: waives the request-ID rule, never a time bound
+	methods  []int // confirmation Method per confirmation
+	arSigned bool  // artifact entries: the ArtifactResponse envelope carries its own signature as well
 	nowOff   time.Duration
 }
 
 func (k c02Case) String() string {
-	return fmt.Sprintf("D=%v S=%v pos=%v shape=%d layout=%d form=%d entry=%d arsigned=%v nowoff=%v", k.tol.D, k.tol.S, k.pos, k.shape, k.layout, k.form, k.entry, k.arSigned, k.nowOff)
+	return fmt.Sprintf("D=%v S=%v pos=%v shape=%d layout=%d form=%d entry=%d arsigned=%v allowIDP=%v methods=%v nowoff=%v", k.tol.D, k.tol.S, k.pos, k.shape, k.layout, k.form, k.entry, k.arSigned, k.allowIDP, k.methods, k.nowOff)
 }
 
 func setTimes(ael *etree.Element, aII, nb, nooa time.Time, cNOOA []time.Time, form int) {
@@ -173,6 +175,8 @@ func runC02(c *core.Ctx) {
 			k.entry = c.Rng.Intn(2)
 		}
 		k.arSigned = k.entry >= 2 && c.Rng.Intn(2) == 0
+		k.allowIDP = c.Rng.Intn(4) == 0
+		k.methods = pickConfMethods(c.Rng, 2)
 		add(k)
 	}
 
@@ -188,6 +192,7 @@ func c02Run(c *core.Ctx, o *so.Oracle, sp *saml.ServiceProvider, s1 *fx.KeyPair,
 	n := fx.Epoch
 	fx.SetNow(n.Add(k.nowOff % time.Millisecond))
 	fx.SetTolerances(k.tol.D, k.tol.S)
+	sp.AllowIDPInitiated = k.allowIDP
 	c.Journal("C02 " + k.String())
 
 	rII := lowerBounded(n, k.tol.D, k.pos[0])
@@ -239,6 +244,9 @@ func c02Run(c *core.Ctx, o *so.Oracle, sp *saml.ServiceProvider, s1 *fx.KeyPair,
 		}
 		el := sa.Element()
 		setTimes(el, a.times[0], a.times[1], a.times[2], a.conf, k.form)
+		if len(k.methods) > 0 {
+			setConfMethods(el, k.methods)
+		}
 		if k.layout == 1 {
 			var err error
 			el, err = o.Sign(el, s1, "")
